@@ -121,11 +121,16 @@ def run_proofs(report, prop, modules, timeout_ms=None):
                     report.undecided.append(msg)
             elif r["status"] == "no-obligations":
                 report.failures.append(f"zero obligations generated for {fn}")
+            ps_ = [o["result"] for o in r["obligations"] if o["kind"] == "path-sat"]
+            if ps_ and all(x == "vacuous" for x in ps_):
+                report.failures.append(f"every sampled path of {fn} carries contradictory assumptions (vacuous proof)")
             for o in r["obligations"]:
                 solver_ms[o["backend"]] = solver_ms.get(o["backend"], 0) + o["ms"]
-                if o["kind"] in ("pre-sat", "path-sat"):
+                if o["kind"] == "pre-sat":
                     if o["result"] == "vacuous":
-                        report.failures.append(f"vacuous {'precondition' if o['kind'] == 'pre-sat' else 'path (assumed callee contracts contradict each other)'} in {fn}")
+                        report.failures.append(f"vacuous precondition in {fn}")
+                    continue
+                if o["kind"] == "path-sat":
                     continue
                 mine_ = (not o["tags"]) or prop in o["tags"]
                 if not mine_ and o["result"] != "proved":
